@@ -120,6 +120,10 @@ def run_child(job, tmp, tag, cwd, bytecode, decoy=None):
     env = dict(os.environ, PYTHONPATH=(decoy + os.pathsep if decoy else '') + REPO + os.pathsep + HERE)
     if bytecode: env.pop('PYTHONDONTWRITEBYTECODE', None)
     else: env['PYTHONDONTWRITEBYTECODE'] = '1'
+    if tag == 'r' and len(json.dumps(job.get('cfg'), sort_keys=True, default=repr)) % 2:
+        # every other reader runs where text files default to ASCII (the C locale, no UTF-8 mode): what the writer stored as text
+        # must not depend on the reader's locale
+        env.update(LC_ALL='C', LANG='C', PYTHONCOERCECLOCALE='0', PYTHONUTF8='0')
     r = subprocess.run([sys.executable, os.path.join(HERE, 'persist_child.py'), p], stdout=subprocess.PIPE, stderr=subprocess.STDOUT,
                        text=True, env=env, cwd=cwd, timeout=300)
     op = p + '.out.json'
